@@ -332,6 +332,8 @@ def model_write(env, path, value):
         et = D.Scalar(t.elem.kind, t.elem_bits, t.elem.enum)
         if et.kind == "Flag":
             v = bool(v)
+        if et.kind == "Float":
+            v = ("f", v & ((1 << t.elem_bits) - 1))
         cw = M.representable(et, v, e.m)
         if cw:
             from worldb import model2
@@ -361,6 +363,8 @@ def model_write(env, path, value):
                  "requires": f.requires is not None, "value_outside_field_type": not M.representable(f.type, v, e.m) if f.type.kind != "Flag" else False}
         if f.type.kind == "Flag":
             v = bool(v)
+        if f.type.kind == "Float":
+            v = ("f", v & ((1 << f.type.bits) - 1))
     cw = M.could_write(e, name, v)
     if cw is None:
         return None, None, facts
@@ -435,6 +439,19 @@ def write_values(rng, module, env, path):
     r = resolve_path(env, path)
     if r in (ABSENT, UNDECIDED):
         r = None
+    if r is not None:
+        e0, name0, idx0 = r
+        f0, _c0 = e0.lookup(name0)
+        t0 = f0.type if not f0.is_virtual else None
+        if isinstance(t0, D.ArrayT):
+            t0 = D.Scalar(t0.elem.kind, t0.elem_bits, t0.elem.enum) if isinstance(t0.elem, D.Scalar) else None
+        if isinstance(t0, D.Scalar) and t0.kind == "Float":
+            # bit patterns; no NaN: the payload of a NaN need not survive being passed by value
+            if t0.bits == 32:
+                return [0, 1 << 31, 0x3F800000, 0x7F800000, 0xFF800000, 0x7F7FFFFF, 0xFF7FFFFF, 1, 0x80000001, 0x00800000, 0x3DCCCCCD,
+                        0xC2F6E979, rng.getrandbits(31) & 0x7F7FFFFF]
+            return [0, 1 << 63, 0x3FF0000000000000, 0x7FF0000000000000, 0xFFF0000000000000, 0x7FEFFFFFFFFFFFFF, 0xFFEFFFFFFFFFFFFF, 1,
+                    0x8000000000000001, 0x0010000000000000, 0x3FB999999999999A, 0xC05EDD2F1A9FBE77, rng.getrandbits(63) & 0x7FEFFFFFFFFFFFFF]
     vals = [0, 1, -1, 2, 255, 256, 65535, 65536, (1 << 31) - 1, 1 << 31, (1 << 32) - 1, 1 << 32,
             (1 << 63) - 1, 1 << 63, (1 << 64) - 1, -(1 << 31), -(1 << 31) - 1, -(1 << 63), 9, 10, 99, 100]
     if r is not None and r[2] is None:
